@@ -1,6 +1,7 @@
 (* C14 -- validating lazy APIs never hand out malformed fragments. Statements only. *)
 From Coq Require Import List Bool Arith NArith.
 From SonicV Require Import Spec.Ref Model.SkipStr Model.SkipNum Model.SkipAll Model.Skip Model.RefSound Model.IterSound Model.IterObjSound.
+From SonicV Require Model.GetLookup.
 Import ListNotations.
 Open Scope N_scope.
 
@@ -29,3 +30,8 @@ Proof. exact ref_get_sound. Qed.
 Theorem reference_iterators_return_wf_fragments : forall l k a b,
   (In (IOk k a b) (ref_array_iter l) \/ In (IOk k a b) (ref_object_iter l)) -> located l a b.
 Proof. intros l k a b [H|H]; [exact (array_iterator_items_located l k a b H)|exact (object_iterator_items_located l k a b H)]. Qed.
+
+(* on well-formed input the validating walker is the tree lookup (so it rejects nothing it should find) *)
+Theorem reference_get_complete_on_wf : forall l v a b p a' b' v', ref_text true l = Some (v, a, b) ->
+  lookup v a b p = Found a' b' v' -> ref_get l p = Some (a', b').
+Proof. exact GetLookup.get_is_lookup. Qed.
